@@ -362,6 +362,29 @@ fn gen_sc(rng: &mut Rng, flavour: u8) -> Sc {
                 conversion: conv_spec.clone(),
             },
         );
+        if rng.chance(1, 3) {
+            // an earlier rule that matches the same rows and carries another conversion: rules fold
+            // in list order, so the later rule's conversion is the one in force
+            let mut decoy = conv_spec.clone().unwrap();
+            decoy.commodity = Some(if decoy.commodity.as_deref() == Some("XAG") { "XPT" } else { "XAG" }.to_string());
+            if !has_charge && rng.chance(1, 2) {
+                decoy.rate = if decoy.rate == "price_of_primary" { "price_of_secondary" } else { "price_of_primary" }.to_string();
+            }
+            let mut el = BTreeMap::new();
+            el.insert("secondary_commodity".to_string(), if rng.chance(1, 2) { ".+" } else { "." }.to_string());
+            let before = rng.usize(at + 1);
+            rules.insert(
+                before,
+                Rule {
+                    matcher: vec![el],
+                    single: rng.chance(1, 2),
+                    pending: false,
+                    payee: None,
+                    account: None,
+                    conversion: Some(decoy),
+                },
+            );
+        }
     }
     let mut base = Doc {
         path: "bank/".to_string(),
